@@ -204,8 +204,13 @@ class UnitsSerializer(Serializer):
             matched_regex = self.regex_for_serialized.fullmatch(data)
             if matched_regex:
                 data = matched_regex.group(1)
-            if data.startswith('nan'):
+            if data == 'nan' or data.startswith('nan '):
+                # a quantity whose magnitude is nan; not a unit whose
+                # name merely starts with "nan" (nanometer, nanomolar)
                 unit_str = data[len('nan'):].strip()
+                if unit_str.startswith('/'):
+                    # pint writes nan / second for a reciprocal unit
+                    unit_str = '1 ' + unit_str
                 unit_data = math.nan * units(unit_str)
             else:
                 unit_data = units(data)
